@@ -272,6 +272,11 @@ class Type4Tag(nfc.tag.Tag):
             log.debug("ndef file read flag is %d", rf)
             log.debug("ndef file write flag is %d", wf)
 
+            if not self.tag._extended_length_support:
+                # Short APDUs carry at most 255 command data bytes and
+                # return at most 256 response data bytes.
+                mle, mlc = min(mle, 256), min(mlc, 255)
+
             self._max_le = mle
             self._max_lc = mlc
             self._capacity = mfs - tag + 2
